@@ -50,6 +50,9 @@ structure St where
   /-- the same for the pointer-level layer -/
   pm : Option Model.LruPtr.PSt := none
 
+/-- capacities from which a case is judged by the monitor only -/
+def bigRun (cap : Int) : Bool := decide (cap > 50000)
+
 def kind : Kind where
   σ := St
   init := fun ps => match ps with
@@ -72,6 +75,17 @@ def kind : Kind where
       let ev := match op, o with
         | .add _ _, .kv (some _) => true
         | _, _ => false
+      -- very large capacities (runs that straddle a threshold of ≥ 2^15 entries): the specification monitor
+      -- alone judges the implementation's answers; the two model layers (quadratic in the population: the
+      -- pointer layer copies its heap on every write) are not run, so there is no model answer to compare
+      if bigRun st.cap then
+        let st' : St := { st with es := es', evicted := st.evicted || ev, m := none, pm := none }
+        match failRes l.res with
+        | some c => { st := st', tags := [l.op, "bigrun:monitor-only"], spec := some s!"{c}:{l.op}" }
+        | none =>
+          { st := st', tags := [l.op, "bigrun:monitor-only"], nontrivial := st'.evicted
+            spec := if renderOut o == l.res then none else some s!"lru:{l.op}" }
+      else
       -- model: a method call through a nil `*LRUCache` dereferences nil (every method reads a field)
       let (m', mres) : Option Model.Lru.St × List Val := match st.m with
         | none => (none, [.atom "panic"])
